@@ -74,7 +74,7 @@ class C02(CmpProp):
             G.KEY, G.BY, G.PRELUDE = saved
 
     def _oracle(self, tier, rng):
-        results = R.run_cases(self.cases(tier, rng))
+        results = self.l1_results or R.run_cases(self.cases(tier, rng))
         mods = []
         for r in results:
             m = r.meta
